@@ -494,9 +494,15 @@ def addMul (t : IntTy) (π : Policy) (to0 x y : Int) (dir : Dir) : Int × Result
   let ov := zr.2.resultOverflow
   if ov == 0 then add t π to0 to0 (t.wrap zr.1) dir
   else if ov == -1 then
-    if to0 ≤ 0 then setNegOverflow t π to0 dir else assignNan t π to0 V_UNKNOWN_NEG_OVERFLOW
+    if to0 ≤ 0 then setNegOverflow t π to0 dir
+    -- to > 0 and x * y < min: to + x * y < to + min, a correct bound when rounding upward
+    else if dir.roundUp then (to0 + t.emin π, V_LT)
+    else assignNan t π to0 V_UNKNOWN_NEG_OVERFLOW
   else
-    if to0 ≥ 0 then setPosOverflow t π to0 dir else assignNan t π to0 V_UNKNOWN_POS_OVERFLOW
+    if to0 ≥ 0 then setPosOverflow t π to0 dir
+    -- to < 0 and x * y > max: to + x * y > to + max, a correct bound when rounding downward
+    else if dir.roundDown then (to0 + t.emax π, V_GT)
+    else assignNan t π to0 V_UNKNOWN_POS_OVERFLOW
 
 /-- `sub_mul_int` -/
 def subMul (t : IntTy) (π : Policy) (to0 x y : Int) (dir : Dir) : Int × Result :=
@@ -504,10 +510,16 @@ def subMul (t : IntTy) (π : Policy) (to0 x y : Int) (dir : Dir) : Int × Result
   let ov := zr.2.resultOverflow
   if ov == 0 then sub t π to0 to0 (t.wrap zr.1) dir
   else if ov == -1 then
-    if to0 ≥ 0 then setPosOverflow t π to0 dir else assignNan t π to0 V_UNKNOWN_NEG_OVERFLOW
+    if to0 ≥ 0 then setPosOverflow t π to0 dir
+    -- to < 0 and x * y < min: to - x * y > to - min, a correct bound when rounding downward
+    else if dir.roundDown then (to0 - t.emin π, V_GT)
+    else assignNan t π to0 V_UNKNOWN_NEG_OVERFLOW
   else
     -- x * y > max: `to - x * y` is below min when to < 0; for to == 0 only if the range is symmetric
     if to0 < 0 || (to0 == 0 && decide (t.emin π + t.emax π ≥ 0)) then setNegOverflow t π to0 dir
+    -- to ≥ 0 and x * y > max: to - x * y < to - max, a correct bound when rounding upward
+    -- (signed types only: `to - max` would wrap around for an unsigned one)
+    else if dir.roundUp && decide (t.emin π < 0) then (to0 - t.emax π, V_LT)
     else assignNan t π to0 V_UNKNOWN_POS_OVERFLOW
 
 /-! ## gcd, lcm -/
